@@ -26,7 +26,7 @@ META = {
     "note": "partial: the theorems are about the parser models; memory safety of the C++ (SBuf windows, MemBuf, HttpHeader "
             "storage, client_side.cc / http.cc state machines, error paths, use-after-free) is NOT proved -- it rests on the "
             "sanitizer-instrumented unit correspondence and on crash / assertion / liveness detection on the normally built "
-            "binary (quick tier; an ASan build of the whole proxy is left to the thorough tier when VERIF_ASAN_SQUID=1). "
+            "binary (an ASan+UBSan build of the whole proxy is opt-in: thorough tier with VERIF_ASAN_SQUID=1, not exercised so far). "
             "Depends on the claimed models of C21/C23/C24/C62 (imported, not edited). Trusted: Coq kernel, extraction, the "
             "harnesses h_reqparse/h_respparse/h_chunked, vlib/lab.py stubs.",
     "technique": "Coq proof (composition of the proved parser-model theorems into outcome trichotomies quantified over all "
@@ -338,7 +338,7 @@ def e2e_stage(res, L, tier, n):
     org = L.origin(io_timeout=6)
     conf = "request_header_max_size %d bytes\nreply_header_max_size %d bytes\nforwarded_for on\nread_timeout 5 seconds\nrequest_timeout 5 seconds\n" \
            "connect_timeout 3 seconds\nclient_lifetime 30 seconds\n" % (REQ_LIMIT, REQ_LIMIT)
-    sq = L.squid(extra_conf=conf)
+    sq = L.squid(extra_conf=conf, env=c39.maybe_asan_tree(L, res, tier))
     _state["sq"] = sq
     found = 0
     BATCH = 48
